@@ -78,6 +78,7 @@ type c14T interface {
 }
 
 func refusalSetup(t c14T, pol string) (*sim.World, *sim.Node, *sim.Node) {
+	sim.CaseStart(t)
 	w := sim.NewWorld()
 	a := w.AddNode("alice")
 	m := w.AddNode("mallory")
